@@ -26,49 +26,88 @@ Qed.
 (* no character that could start the options *)
 Definition quiet_char (c : ascii) : bool := negb (opt_start c).
 
-Lemma find_options_quiet s : str_forall quiet_char s = true -> find_options s = (s, "").
-Proof.
-  induction s as [|c s IH]; [reflexivity|]. cbn [str_forall]. intros H. apply andb_prop in H.
-  destruct H as [Hc Hs]. cbn [find_options]. destruct s as [|d r]; [reflexivity|].
-  assert (Hd : opt_start d = false).
-  { cbn [str_forall] in Hs. apply andb_prop in Hs. destruct Hs as [Hd _]. now apply negb_true_iff in Hd. }
-  rewrite Hd, andb_false_r. rewrite (IH Hs). reflexivity.
-Qed.
+(* pair-quiet: nowhere a ')' or blank followed by a letter or '*' *)
+Fixpoint pq (s : string) : bool :=
+  match s with
+  | String c rest =>
+      match rest with
+      | String d _ => negb (opt_before c && opt_start d) && pq rest
+      | EmptyString => true
+      end
+  | EmptyString => true
+  end.
+
+Lemma pq_step c d r : pq (String c (String d r)) = negb (opt_before c && opt_start d) && pq (String d r).
+Proof. reflexivity. Qed.
 
 Lemma find_options_step c d r : find_options (String c (String d r)) =
   if opt_before c && opt_start d then (String c "", String d r)
   else let '(a, b) := find_options (String d r) in (String c a, b).
 Proof. reflexivity. Qed.
 
-Lemma find_options_at s c d r : str_forall quiet_char (s ++ String c "") = true ->
+Lemma find_options_quiet s : pq s = true -> find_options s = (s, "").
+Proof.
+  induction s as [|c s IH]; [reflexivity|]. destruct s as [|d r]; [reflexivity|].
+  rewrite pq_step. intros H. apply andb_prop in H. destruct H as [Hc Hs]. apply negb_true_iff in Hc.
+  rewrite find_options_step, Hc, (IH Hs). reflexivity.
+Qed.
+
+Lemma find_options_at s c d r : pq (s ++ String c "") = true ->
   opt_before c = true -> opt_start d = true ->
   find_options (s ++ String c (String d r)) = (s ++ String c "", String d r).
 Proof.
   induction s as [|c0 s IH]; intros Hq Hb Hd.
-  - cbn [append find_options]. now rewrite Hb, Hd.
-  - cbn [append str_forall] in Hq. apply andb_prop in Hq. destruct Hq as [Hc0 Hq].
-    specialize (IH Hq Hb Hd). destruct s as [|c1 s1].
-    + cbn [append] in *. cbn [str_forall] in Hq. apply andb_prop in Hq. destruct Hq as [Hc _].
-      apply negb_true_iff in Hc. rewrite find_options_step. rewrite Hc, andb_false_r.
-      rewrite IH. reflexivity.
-    + cbn [append str_forall] in Hq. apply andb_prop in Hq. destruct Hq as [Hc1 _].
-      apply negb_true_iff in Hc1. cbn [append]. rewrite find_options_step. rewrite Hc1, andb_false_r.
+  - cbn [append]. rewrite find_options_step. now rewrite Hb, Hd.
+  - destruct s as [|c1 s1].
+    + cbn [append] in *. rewrite pq_step in Hq. apply andb_prop in Hq. destruct Hq as [Hc Hq].
+      apply negb_true_iff in Hc. rewrite find_options_step, Hc.
+      specialize (IH Hq Hb Hd). cbn [append] in IH. rewrite IH. reflexivity.
+    + cbn [append] in Hq. rewrite pq_step in Hq. apply andb_prop in Hq. destruct Hq as [Hc Hq].
+      apply negb_true_iff in Hc. cbn [append]. rewrite find_options_step, Hc.
       change (String c1 (s1 ++ String c (String d r))) with (String c1 s1 ++ String c (String d r)).
-      rewrite IH. reflexivity.
+      rewrite (IH Hq Hb Hd). reflexivity.
+Qed.
+
+Lemma pq_app s t : pq s = true -> pq t = true -> head_sat opt_start t = false -> pq (s ++ t) = true.
+Proof.
+  induction s as [|c s IH]; intros Hs Ht Hh; [exact Ht|].
+  destruct s as [|d r].
+  - cbn [append]. destruct t as [|e t']; [reflexivity|]. rewrite pq_step. cbn in Hh. rewrite Hh, andb_false_r. exact Ht.
+  - rewrite pq_step in Hs. apply andb_prop in Hs. destruct Hs as [Hc Hs].
+    change ((String c (String d r)) ++ t) with (String c (String d (r ++ t))). rewrite pq_step, Hc.
+    change (String d (r ++ t)) with (String d r ++ t). now rewrite IH.
+Qed.
+
+Lemma pq_of_forall (p : ascii -> bool) s : (forall c, p c = true -> opt_start c = false) ->
+  str_forall p s = true -> pq s = true.
+Proof.
+  intros Hp. induction s as [|c s IH]; [reflexivity|]. intros H. cbn [str_forall] in H. apply andb_prop in H.
+  destruct H as [_ Hs]. destruct s as [|d r]; [reflexivity|]. rewrite pq_step, (IH Hs).
+  cbn [str_forall] in Hs. apply andb_prop in Hs. destruct Hs as [Hd _]. now rewrite (Hp d Hd), andb_false_r.
+Qed.
+
+Lemma pq_no_before s : str_forall (fun c => negb (opt_before c)) s = true -> pq s = true.
+Proof.
+  induction s as [|c s IH]; [reflexivity|]. intros H. cbn [str_forall] in H. apply andb_prop in H.
+  destruct H as [Hc Hs]. destruct s as [|d r]; [reflexivity|]. rewrite pq_step, (IH Hs).
+  apply negb_true_iff in Hc. now rewrite Hc.
 Qed.
 
 (* ---- characters ---- *)
 Definition expr_char (c : ascii) : bool :=
   is_digit c || is_blank c || Ascii.eqb c "+" || Ascii.eqb c "-" || Ascii.eqb c "." ||
   Ascii.eqb c "#" || Ascii.eqb c "(" || Ascii.eqb c ")" || Ascii.eqb c ":".
-(* a density as the deck generators write it: digits, sign, point (no E exponent letter) *)
-Definition rho_char (c : ascii) : bool :=
-  is_digit c || Ascii.eqb c "+" || Ascii.eqb c "-" || Ascii.eqb c ".".
+(* a density token: anything but blanks and parentheses ("-2.7", "1.0E-3", "6.02e-2") *)
+Definition rho_char (c : ascii) : bool := density_char c && negb (Ascii.eqb c ")").
 
 Lemma expr_char_quiet c : expr_char c = true -> quiet_char c = true.
 Proof. destruct c as [[] [] [] [] [] [] [] []]; intros H; try discriminate H; reflexivity. Qed.
-Lemma rho_char_facts c : rho_char c = true -> quiet_char c = true /\ density_char c = true /\ nonblank c = true.
-Proof. destruct c as [[] [] [] [] [] [] [] []]; intros H; try discriminate H; repeat split; reflexivity. Qed.
+Lemma rho_char_facts c : rho_char c = true -> negb (opt_before c) = true /\ density_char c = true /\ nonblank c = true.
+Proof.
+  unfold rho_char, density_char, opt_before, nonblank. intros H. apply andb_prop in H. destruct H as [H Hp].
+  apply andb_prop in H. destruct H as [Hb Ho]. rewrite Hb, Ho. apply negb_true_iff in Hp. rewrite Hp.
+  apply negb_true_iff in Hb. rewrite Hb. auto.
+Qed.
 Lemma digit_facts c : is_digit c = true -> quiet_char c = true /\ nonblank c = true /\ is_blank c = false.
 Proof. destruct c as [[] [] [] [] [] [] [] []]; intros H; try discriminate H; repeat split; reflexivity. Qed.
 
@@ -108,7 +147,8 @@ Definition mat_ok (mat : string) (rho : option (nat * string)) : Prop :=
   digits_ok mat = true /\
   match rho with
   | None => all_zero mat = true
-  | Some (_, r) => all_zero mat = false /\ str_forall rho_char r = true /\ r <> ""
+  | Some (_, r) => all_zero mat = false /\ str_forall rho_char r = true /\ r <> "" /\
+                   head_sat opt_start r = false
   end.
 
 Definition rho_text (rho : option (nat * string)) : string :=
@@ -160,16 +200,32 @@ Proof.
   assert (HGvoid : rho = None -> head_sat nonblank G = false).
   { intros ->. unfold G. destruct g3 as [|g3']; [|reflexivity]. destruct Hsep as [Hs|[Hs _]]; congruence. }
   assert (ENe : E <> "") by (destruct E; [discriminate|discriminate]).
-  (* the text before the options is quiet *)
-  assert (Qrho : str_forall quiet_char (rho_text rho) = true).
-  { destruct rho as [[g2 r]|]; [|reflexivity]. cbn [rho_text]. rewrite str_forall_app, blanks_quiet.
-    destruct Hrho as (_ & Hr & _). cbn [andb].
-    apply (str_forall_impl rho_char); [|exact Hr]. intros c Hc. now destruct (rho_char_facts c Hc). }
-  assert (Qbody : str_forall quiet_char (card_body name g1 mat rho g3 E) = true).
-  { unfold card_body. rewrite !str_forall_app, !blanks_quiet, Qrho.
-    rewrite (str_forall_impl is_digit quiet_char name (fun c Hc => proj1 (digit_facts c Hc)) Fname).
-    rewrite (str_forall_impl is_digit quiet_char mat (fun c Hc => proj1 (digit_facts c Hc)) Fmat).
-    rewrite (str_forall_impl expr_char quiet_char E expr_char_quiet HE). reflexivity. }
+  (* nowhere before the options a ')' or blank is followed by a letter or '*' *)
+  assert (Qf : forall (p : ascii -> bool) t, (forall c, p c = true -> opt_start c = false) ->
+               str_forall p t = true -> pq t = true /\ head_sat opt_start t = false).
+  { intros p t Hp Ht. split; [now apply (pq_of_forall p)|].
+    destruct t as [|c t']; [reflexivity|]. cbn in Ht. apply andb_prop in Ht. destruct Ht as [Hc _]. cbn. now apply Hp. }
+  assert (Qq : forall c, quiet_char c = true -> opt_start c = false) by (intros c Hc; now apply negb_true_iff in Hc).
+  assert (Qd : forall c, is_digit c = true -> opt_start c = false) by (intros c Hc; apply Qq; now destruct (digit_facts c Hc)).
+  assert (Qe : forall c, expr_char c = true -> opt_start c = false) by (intros c Hc; apply Qq; now apply expr_char_quiet).
+  destruct (Qf _ E Qe HE) as [PE HhE].
+  assert (PG : pq G = true /\ head_sat opt_start G = false).
+  { unfold G. destruct g3 as [|g3']; [cbn [blanks append]; auto|]. split; [|reflexivity].
+    apply pq_app; auto. exact (proj1 (Qf _ _ Qq (blanks_quiet (S g3')))). }
+  destruct PG as [PG HhG].
+  assert (PR2 : pq (rho_text rho ++ G) = true /\ head_sat opt_start (rho_text rho ++ G) = false).
+  { destruct rho as [[g2 r]|]; [|cbn [rho_text append]; auto]. destruct Hrho as (_ & Hr & Hrne & Hrhd).
+    cbn [rho_text]. rewrite str_app_assoc. split; [|reflexivity].
+    apply pq_app; [exact (proj1 (Qf _ _ Qq (blanks_quiet (S g2))))| |now rewrite head_sat_app].
+    apply pq_app; auto. apply pq_no_before. apply (str_forall_impl rho_char); [|exact Hr].
+    intros c Hc. now destruct (rho_char_facts c Hc). }
+  destruct PR2 as [PR2 HhR2].
+  assert (Qbody : pq (card_body name g1 mat rho g3 E) = true).
+  { unfold card_body. fold G.
+    apply pq_app; [exact (proj1 (Qf _ _ Qd Fname))| |reflexivity].
+    apply pq_app; [exact (proj1 (Qf _ _ Qq (blanks_quiet (S g1))))| |].
+    - apply pq_app; [exact (proj1 (Qf _ _ Qd Fmat))|exact PR2|exact HhR2].
+    - rewrite head_sat_app by exact Nmat. exact (proj2 (Qf _ _ Qd Fmat)). }
   (* options found where they are *)
   assert (Hfind : find_options (card_body name g1 mat rho g3 E ++ opts) = (card_body name g1 mat rho g3 E, opts)).
   { destruct Hopts as [->|(E0 & c & d & r & -> & Hb & -> & Hd)].
@@ -199,7 +255,7 @@ Proof.
     rewrite fields_blanks. rewrite fields_lemma; auto.
     - f_equal. f_equal. unfold R2. cbn [fields].
       destruct rho as [[g2 r]|]; cbn [rho_text].
-      + rewrite ?str_app_assoc, skip_blanks_blanks. destruct Hrho as (_ & Hr & Hrne).
+      + rewrite ?str_app_assoc, skip_blanks_blanks. destruct Hrho as (_ & Hr & Hrne & _).
         destruct r as [|c r']; [congruence|]. cbn [append str_forall] in *. apply andb_prop in Hr.
         destruct Hr as [Hc _]. destruct (rho_char_facts c Hc) as (_ & _ & Hnb). unfold nonblank in Hnb.
         apply negb_true_iff in Hnb. cbn [skip_blanks]. rewrite Hnb. reflexivity.
@@ -232,7 +288,7 @@ Proof.
     by (rewrite Emat; reflexivity).
   rewrite Hmat_digits. cbn [negb].
   destruct rho as [[g2 r]|].
-  - destruct Hrho as (Hz & Hr & Hrne). rewrite Hz.
+  - destruct Hrho as (Hz & Hr & Hrne & _). rewrite Hz.
     unfold R2. cbn [rho_text]. rewrite ?str_app_assoc. cbn [blank_head blanks append negb].
     change (String " " (blanks g2 ++ r ++ G)) with (blanks (S g2) ++ r ++ G). rewrite skip_blanks_blanks.
     assert (Fr_nb : head_sat nonblank (r ++ G) = true).
